@@ -13,6 +13,7 @@ import (
 	"strconv"
 	"strings"
 	"sync"
+	"time"
 
 	"github.com/samber/ro"
 
@@ -44,6 +45,7 @@ type Case struct {
 	Steps []Step      `json:"steps"`
 	Cbn   []int       `json:"cbn"`
 	Fault *cat.Fault  `json:"fault,omitempty"`
+	NSubs int         `json:"nsubs"`
 	Raw   string      `json:"-"`
 }
 
@@ -95,28 +97,37 @@ func ChainName(ch []cat.Stage) string {
 
 // ---- controllable source ---------------------------------------------------------------------------
 
-type Ctl struct {
-	mu     sync.Mutex
+type ctlSub struct {
 	dest   ro.Observer[any]
 	subCtx context.Context
-	Subs   int
-	Torn   int
+	items  int
+}
+
+// Ctl is a cold, controllable source: every subscription registers its destination; the replayer emits on demand.
+type Ctl struct {
+	mu            sync.Mutex
+	subs          []*ctlSub
+	Subs          int
+	Torn          int
 	SubCtxMarkers []string
+	PanicOnSub    bool
 }
 
 func (c *Ctl) Observable(mode string, script []Step) ro.Observable[any] {
 	fn := func(ctx context.Context, dest ro.Observer[any]) ro.Teardown {
 		c.mu.Lock()
 		c.Subs++
-		c.dest = dest
-		c.subCtx = ctx
+		cs := &ctlSub{dest: dest, subCtx: ctx}
+		c.subs = append(c.subs, cs)
 		c.SubCtxMarkers = cat.Markers(ctx)
 		c.mu.Unlock()
+		if c.PanicOnSub {
+			panic(cat.ErrFault)
+		}
 		if mode == "sync" {
-			items := 0
 			for _, st := range script {
 				if st.Do == "push" {
-					emit(dest, ctx, st.N, &items)
+					emit(cs, st.N)
 				}
 			}
 		}
@@ -132,16 +143,31 @@ func (c *Ctl) Observable(mode string, script []Step) ro.Observable[any] {
 	return ro.NewUnsafeObservableWithContext(fn)
 }
 
-func emit(dest ro.Observer[any], subCtx context.Context, n Notif, items *int) {
+func (c *Ctl) counts() (int, int) {
+	c.mu.Lock()
+	defer c.mu.Unlock()
+	return c.Subs, c.Torn
+}
+
+func (c *Ctl) nth(k int) *ctlSub {
+	c.mu.Lock()
+	defer c.mu.Unlock()
+	if k < len(c.subs) {
+		return c.subs[k]
+	}
+	return nil
+}
+
+func emit(cs *ctlSub, n Notif) {
 	switch n.K {
 	case "N":
-		ctx := context.WithValue(subCtx, rec.KeyItem, *items)
-		*items++
-		dest.NextWithContext(ctx, toVal(n.V))
+		ctx := context.WithValue(cs.subCtx, rec.KeyItem, cs.items)
+		cs.items++
+		cs.dest.NextWithContext(ctx, toVal(n.V))
 	case "E":
-		dest.ErrorWithContext(context.WithValue(subCtx, rec.KeyItem, -1), cat.ErrSrc[int(n.V.(float64))])
+		cs.dest.ErrorWithContext(context.WithValue(cs.subCtx, rec.KeyItem, -1), cat.ErrSrc[int(n.V.(float64))])
 	case "C":
-		dest.CompleteWithContext(context.WithValue(subCtx, rec.KeyItem, -1))
+		cs.dest.CompleteWithContext(context.WithValue(cs.subCtx, rec.KeyItem, -1))
 	}
 }
 
@@ -176,54 +202,159 @@ func gid() uint64 {
 	return id
 }
 
-// Replay runs one case in one source mode.
+// replica is one subscription stream being driven and observed.
+type replica struct {
+	name       string
+	o          ro.Observable[any]
+	ctl        *Ctl
+	ctlBase    int // index of this replica's first subscription inside ctl.subs
+	ctlStride  int // replicas sharing one Ctl subscribe alternately: my k-th subscription is subs[ctlBase+k*ctlStride]
+	nsub       int
+	share      int // number of replicas sharing ctl (expected counters are multiplied / offset accordingly)
+	mu         sync.Mutex
+	log        []got
+	pos        int
+	sub        ro.Subscription
+	terminated bool
+	unsubbed   bool
+	expAll     []string
+	gotAll     []string
+	firstVal   int
+	me         uint64
+	checkGid   bool
+}
+
+func (r *replica) observer() ro.Observer[any] {
+	recv := func(k string, v string, ctx context.Context) {
+		g := got{K: k, V: v, C: cat.Markers(ctx), Gid: r.me}
+		if r.checkGid {
+			g.Gid = gid()
+		}
+		r.mu.Lock()
+		r.log = append(r.log, g)
+		r.mu.Unlock()
+	}
+	return ro.NewObserverWithContext(
+		func(ctx context.Context, v any) { recv("N", cat.Canon(v), ctx) },
+		func(ctx context.Context, err error) { recv("E", fmt.Sprint(cat.CauseOf(err)), ctx) },
+		func(ctx context.Context) { recv("C", "0", ctx) },
+	)
+}
+
+// Replay runs one case in one mode.
+//
+//	ctl-unsafe / ctl-safe : controllable source, observation compared after every step
+//	sync                  : synchronous cold source, concatenated log and final counters compared
+//	interleave            : TWO subscriptions of the same pipeline object stepped alternately (C12)
+//	multi-apply           : the same operator VALUES applied to two sources, both pipelines stepped alternately (C12)
 func Replay(idx int, c *Case, mode string, out *[]Mismatch) {
+	done := make(chan struct{})
+	var res []Mismatch
+	go func() {
+		defer close(done)
+		replay(idx, c, mode, &res)
+	}()
+	select {
+	case <-done:
+		*out = append(*out, res...)
+	case <-time.After(20 * time.Second):
+		// the calling goroutine is stuck inside the library (a lock left held, a Wait that never returns)
+		buf := make([]byte, 1<<16)
+		n := runtime.Stack(buf, true)
+		st := string(buf[:n])
+		if k := strings.Index(st, "samber/ro."); k >= 0 {
+			lo, hi := k-200, k+400
+			if lo < 0 {
+				lo = 0
+			}
+			if hi > len(st) {
+				hi = len(st)
+			}
+			st = st[lo:hi]
+		} else if len(st) > 600 {
+			st = st[:600]
+		}
+		*out = append(*out, Mismatch{Case: idx, Chain: ChainName(c.Chain), Mode: mode, Step: -1, Class: "hang", Detail: "a call into the library did not return within 20s: " + st})
+	}
+}
+
+func replay(idx int, c *Case, mode string, out *[]Mismatch) {
 	name := ChainName(c.Chain)
+	prefix := ""
+	if mode == "interleave" || mode == "multi-apply" {
+		prefix = "reuse-"
+	}
+	secondSub := 1 << 30 // index of the step that re-subscribes the same pipeline object (C12), if any
+	nsubSteps := 0
+	for i, st := range c.Steps {
+		if st.Do == "sub" {
+			nsubSteps++
+			if nsubSteps == 2 {
+				secondSub = i
+			}
+		}
+	}
 	add := func(step int, class, detail string) {
-		*out = append(*out, Mismatch{Case: idx, Chain: name, Mode: mode, Step: step, Class: class, Detail: detail})
+		p := prefix
+		if step >= secondSub {
+			p = "resub-"
+		}
+		if c.Fault != nil && c.Fault.Stage != 0 {
+			p = "fault-" // any deviation of a run with an injected fault is a C07 matter
+		}
+		*out = append(*out, Mismatch{Case: idx, Chain: name, Mode: mode, Step: step, Class: p + class, Detail: detail})
 	}
 	env := cat.NewEnv(len(c.Chain))
-	if c.Fault != nil {
+	faulty := c.Fault != nil && c.Fault.Stage != 0
+	if faulty {
 		env.Fault = *c.Fault
 	}
-	ctl := &Ctl{}
-	var o ro.Observable[any] = ctl.Observable(mode, c.Steps)
+	ops := make([]cat.Op, len(c.Chain))
 	for i, st := range c.Chain {
 		op, err := cat.Build(st, i+1, env)
 		if err != nil {
 			add(0, "catalogue", err.Error())
 			return
 		}
-		o = op(o)
+		ops[i] = op
 	}
-	if ctl.Subs != 0 {
-		add(0, "sub", "source subscribed at construction time")
+	srcMode := mode
+	if prefix != "" {
+		srcMode = "ctl-unsafe"
 	}
-	var mu sync.Mutex
-	var log []got
-	checkGid := mode == "ctl-unsafe"
-	me := uint64(0)
-	if checkGid {
-		me = gid()
-	}
-	recv := func(k string, v string, ctx context.Context) {
-		g := got{K: k, V: v, C: cat.Markers(ctx), Gid: me}
-		if checkGid {
-			g.Gid = gid()
+	build := func(ctl *Ctl) ro.Observable[any] {
+		var o ro.Observable[any] = ctl.Observable(srcMode, c.Steps)
+		for _, op := range ops {
+			o = op(o)
 		}
-		mu.Lock()
-		log = append(log, g)
-		mu.Unlock()
+		return o
 	}
-	obs := ro.NewObserverWithContext(
-		func(ctx context.Context, v any) { recv("N", cat.Canon(v), ctx) },
-		func(ctx context.Context, err error) { recv("E", fmt.Sprint(cat.CauseOf(err)), ctx) },
-		func(ctx context.Context) { recv("C", "0", ctx) },
-	)
+	var reps []*replica
+	switch mode {
+	case "interleave":
+		ctl := &Ctl{}
+		o := build(ctl)
+		reps = []*replica{{name: "A", o: o, ctl: ctl, ctlBase: 0, ctlStride: 2, share: 2}, {name: "B", o: o, ctl: ctl, ctlBase: 1, ctlStride: 2, share: 2}}
+	case "multi-apply":
+		ca, cb := &Ctl{}, &Ctl{}
+		oa := build(ca)
+		ob := build(cb)
+		reps = []*replica{{name: "A", o: oa, ctl: ca, ctlStride: 1, share: 1}, {name: "B", o: ob, ctl: cb, ctlStride: 1, share: 1}}
+	default:
+		ctl := &Ctl{PanicOnSub: faulty && c.Fault.Stage == -1}
+		reps = []*replica{{name: "", o: build(ctl), ctl: ctl, ctlStride: 1, share: 1}}
+	}
+	for _, r := range reps {
+		if s, _ := r.ctl.counts(); s != 0 {
+			add(0, "sub", "source subscribed at construction time")
+		}
+		r.firstVal = -1
+		r.checkGid = mode == "ctl-unsafe"
+		if r.checkGid {
+			r.me = gid()
+		}
+	}
 	base := context.WithValue(context.Background(), rec.KeySub, true)
-	var sub ro.Subscription
-	pos := 0
-	items := 0
 	guard := func(step int, f func()) {
 		defer func() {
 			if e := recover(); e != nil {
@@ -232,47 +363,44 @@ func Replay(idx int, c *Case, mode string, out *[]Mismatch) {
 		}()
 		f()
 	}
-	terminated := false
-	unsubbed := false
-	var firstValues = -1
-	var expAll, gotAll []string
-	check := func(step int, exp Exp, expLog []Notif) {
-		mu.Lock()
-		delta := append([]got(nil), log[pos:]...)
-		pos = len(log)
-		mu.Unlock()
+	check := func(r *replica, step int, exp Exp, expLog []Notif, counters bool) {
+		r.mu.Lock()
+		delta := append([]got(nil), r.log[r.pos:]...)
+		r.pos = len(r.log)
+		r.mu.Unlock()
 		for _, g := range delta {
-			if terminated {
+			if r.terminated {
 				add(step, "grammar", fmt.Sprintf("%s:%s delivered after a terminal notification", g.K, g.V))
 			}
-			if unsubbed {
+			if r.unsubbed {
 				add(step, "after-unsub", fmt.Sprintf("%s:%s delivered after Unsubscribe returned", g.K, g.V))
 			}
 			if g.K != "N" {
-				terminated = true
+				r.terminated = true
 			}
-			gotAll = append(gotAll, g.K+":"+g.V)
+			r.gotAll = append(r.gotAll, g.K+":"+g.V)
 		}
 		for _, e := range expLog {
-			expAll = append(expAll, e.K+":"+cat.Canon(e.V))
+			r.expAll = append(r.expAll, e.K+":"+cat.Canon(e.V))
 		}
 		before := len(*out)
-		compareLog(step, expLog, delta, me, add)
-		if firstValues < 0 {
+		compareLog(step, expLog, delta, r.me, add)
+		if r.firstVal < 0 {
 			for _, m := range (*out)[before:] {
-				if m.Class == "values" {
-					firstValues = before
+				if strings.HasSuffix(m.Class, "values") {
+					r.firstVal = before
 				}
 			}
 		}
-		if sub != nil {
-			if cl := sub.IsClosed(); cl != exp.Closed {
+		if r.sub != nil {
+			if cl := r.sub.IsClosed(); cl != exp.Closed {
 				add(step, "closed", fmt.Sprintf("IsClosed=%v expected %v", cl, exp.Closed))
 			}
 		}
-		ctl.mu.Lock()
-		s, t := ctl.Subs, ctl.Torn
-		ctl.mu.Unlock()
+		if !counters {
+			return
+		}
+		s, t := r.ctl.counts()
 		if s != exp.Sub {
 			add(step, "sub", fmt.Sprintf("source subscribed %d times, expected %d", s, exp.Sub))
 		}
@@ -284,49 +412,71 @@ func Replay(idx int, c *Case, mode string, out *[]Mismatch) {
 			add(step, cls, fmt.Sprintf("source teardown ran %d times, expected %d (closed=%v)", t, exp.Torn, exp.Closed))
 		}
 	}
+	subscribe := func(r *replica, step int) {
+		r.terminated, r.unsubbed = false, false
+		guard(step, func() { r.sub = r.o.SubscribeWithContext(base, r.observer()) })
+		r.nsub++
+	}
+	cur := func(r *replica) *ctlSub { return r.ctl.nth(r.ctlBase + (r.nsub-1)*r.ctlStride) }
+
 	if mode == "sync" {
 		// the whole script is emitted inside Subscribe; only the concatenated log and the final counters are compared
+		r := reps[0]
 		var all []Notif
 		last := c.Steps[len(c.Steps)-1].Exp
 		for _, st := range c.Steps {
 			all = append(all, st.Exp.Log...)
 		}
-		guard(0, func() { sub = o.SubscribeWithContext(base, obs) })
+		subscribe(r, 0)
 		for i, st := range c.Steps {
 			if st.Do == "unsub" {
-				guard(i, sub.Unsubscribe)
+				guard(i, r.sub.Unsubscribe)
 			}
 		}
-		check(len(c.Steps)-1, last, all)
+		check(r, len(c.Steps)-1, last, all, true)
 	} else {
 		for i, st := range c.Steps {
-			switch st.Do {
-			case "sub":
-				guard(i, func() { sub = o.SubscribeWithContext(base, obs) })
-				if ctl.Subs > 0 && !hasMarker(ctl.SubCtxMarkers, "sub") {
-					add(i, "ctx-missing", fmt.Sprintf("source subscribed with context %v (marker sub missing)", ctl.SubCtxMarkers))
+			for _, r := range reps {
+				switch st.Do {
+				case "sub":
+					subscribe(r, i)
+					if s, _ := r.ctl.counts(); s > 0 && !hasMarker(r.ctl.SubCtxMarkers, "sub") {
+						add(i, "ctx-missing", fmt.Sprintf("source subscribed with context %v (marker sub missing)", r.ctl.SubCtxMarkers))
+					}
+				case "push":
+					if cs := cur(r); cs != nil {
+						guard(i, func() { emit(cs, st.N) })
+					}
+				case "unsub":
+					guard(i, r.sub.Unsubscribe)
 				}
-			case "push":
-				if ctl.dest != nil {
-					guard(i, func() { emit(ctl.dest, ctl.subCtx, st.N, &items) })
+				// with two subscriptions sharing one source the counters are only compared once both have taken the step
+				check(r, i, st.Exp, st.Exp.Log, r.share == 1)
+				if st.Do == "unsub" {
+					r.unsubbed = true
 				}
-			case "unsub":
-				guard(i, sub.Unsubscribe)
 			}
-			check(i, st.Exp, st.Exp.Log)
-			if st.Do == "unsub" {
-				unsubbed = true
+			if reps[0].share == 2 {
+				s, t := reps[0].ctl.counts()
+				if s != 2*st.Exp.Sub {
+					add(i, "sub", fmt.Sprintf("source subscribed %d times by two subscriptions, expected %d", s, 2*st.Exp.Sub))
+				}
+				if t != 2*st.Exp.Torn {
+					add(i, "torn", fmt.Sprintf("source teardown ran %d times for two subscriptions, expected %d", t, 2*st.Exp.Torn))
+				}
 			}
 		}
-		// right notifications at the wrong step = a backpressure (C08) problem, not a value (C04) problem
-		if firstValues >= 0 && strings.Join(expAll, " ") == strings.Join(gotAll, " ") {
-			for k := range *out {
-				if k >= firstValues && (*out)[k].Class == "values" && (*out)[k].Case == idx && (*out)[k].Mode == mode {
-					(*out)[k].Class = "timing"
+		for _, r := range reps {
+			// right notifications at the wrong step = a backpressure (C08) problem, not a value (C04) problem
+			if r.firstVal >= 0 && strings.Join(r.expAll, " ") == strings.Join(r.gotAll, " ") {
+				for k := range *out {
+					if k >= r.firstVal && (*out)[k].Class == prefix+"values" {
+						(*out)[k].Class = prefix + "timing"
+					}
 				}
 			}
 		}
-		if c.Fault == nil {
+		if !faulty && prefix == "" {
 			for i, want := range c.Cbn {
 				if int(env.Cb[i+1]) != want {
 					add(len(c.Steps)-1, "cbn", fmt.Sprintf("callback of stage %d invoked %d times, expected %d", i+1, env.Cb[i+1], want))
@@ -338,14 +488,16 @@ func Replay(idx int, c *Case, mode string, out *[]Mismatch) {
 	for i := 0; i < 3; i++ {
 		runtime.Gosched()
 	}
-	mu.Lock()
-	late := len(log) - pos
-	mu.Unlock()
-	if late > 0 {
-		add(len(c.Steps)-1, "late", fmt.Sprintf("%d notifications arrived after the step that caused them returned", late))
-	}
-	if sub != nil && !sub.IsClosed() {
-		sub.Unsubscribe()
+	for _, r := range reps {
+		r.mu.Lock()
+		late := len(r.log) - r.pos
+		r.mu.Unlock()
+		if late > 0 {
+			add(len(c.Steps)-1, "late", fmt.Sprintf("%d notifications arrived after the step that caused them returned", late))
+		}
+		if r.sub != nil && !r.sub.IsClosed() {
+			r.sub.Unsubscribe()
+		}
 	}
 }
 
